@@ -167,12 +167,15 @@ PROPS["C02"] = {
 
 PROPS["C03"] = {
     "level": "exploration",
+    "needs_sx_binary": True,
+    "kit_tools": ["nsrun"],
     "assumptions": ["the virtual wire executes the exact filter text sx installs in the x/net/bpf VM (same pcap compile call and link type as the real adapter)",
                     "frames are injected while the socket is open; a miss under the short exit delay is re-decided with a 3 s exit delay",
                     "don't-cares: NS bit with SYN+ACK, a port of another chunk, vendor string, fragments (not generated)"],
     "units": [{
         "pkg": "command",
-        "tests": [T("TestC03Detection", {"checks": 40, "shards": 10}, {"checks": 400, "shards": 16})],
+        "tests": [T("TestC03Detection", {"checks": 40, "shards": 10}, {"checks": 400, "shards": 16}),
+                  T("TestC03Netns", {"checks": 6, "shards": 6}, {"checks": 60, "shards": 12})],
     }],
 }
 
